@@ -1,6 +1,12 @@
 #!/bin/sh
 # Builds the whole monitor workspace once, offline, from /repo's working tree.
-set -e
-cd "$(dirname "$0")/harness"
+# A monitor crate that fails to build does not stop the others (its check then
+# reports INCONCLUSIVE); the shared dependencies must build.
+cd "$(dirname "$0")/harness" || exit 1
 export CARGO_NET_OFFLINE=true
-cargo build --release --offline --workspace 2>&1 | tail -5
+cargo build --release --offline --workspace --keep-going 2>&1 | tail -15
+cargo build --release --offline -p vcommon 2>&1 | tail -3
+test -f target/release/libvcommon.rlib || ls target/release/deps/libvcommon-*.rlib >/dev/null 2>&1 || { echo "setup: shared dependencies did not build"; exit 1; }
+# warm the Miri sysroot/build used by C42 (best effort)
+( cd miri-seqlock && CARGO_TARGET_DIR="$PWD/../target/miri" MIRIFLAGS="-Zmiri-disable-data-race-detector -Zmiri-disable-stacked-borrows" cargo +nightly miri run --offline --quiet -- --writes 1 --reads 1 --readers 1 >/dev/null 2>&1 || true )
+exit 0
